@@ -65,7 +65,7 @@ Inductive pos :=
 | PScopeNonLast | PScopeLast
 | PPkgNonLast | PPkgLast
 | PDefRhs | PSetRhs | PMdefRhs | PAssignRhs
-| PDefLhs | PSetLhs                         (* a call as the target of def / set *)
+| PDefLhs | PSetLhs                         (* a call as the target of def / set (cleared since 0c81737) *)
 | PAssert
 | PForInit | PForTest | PForStep | PForBodyNonLast | PForBodyLast
 | PSqUnquote | PSqUnquoteInList | PSqSpliceInList | PSqUnquoteInArray
@@ -75,7 +75,7 @@ Inductive pos :=
 | PSelfArg                                  (* argument of a self tail call: compiled inline *)
 | PFnBody                                   (* body of a nested fn / defn: another function *)
 | PMacroExpansion                           (* the expansion of a user macro stands where the macro call stood *)
-| PIncludeLastFile | PIncludeNonLastFile.   (* last form of a file named by (include f1 .. fk) *)
+| PIncludeLastFile | PIncludeNonLastFile.   (* last form of a file named by (include f1 .. fk): never a tail context since 9d37ebd *)
 
 Definition all_pos : list pos :=
   [PBodyNonLast; PBodyLast; PBeginNonLast; PBeginLast; PAndNonLast; PAndLast; POrNonLast; POrLast;
@@ -108,12 +108,12 @@ Definition pos_eqb (a b : pos) : bool :=
 
 (* ---- the property's list of tail positions (properties.jsonl C09: "directly, or as the last form of cond
    arms, begin, let, letseq, newScope bodies or the last arm of and/or, nested in any combination"; the last
-   statement of an infix block and the expansion of a macro are the same forms in other clothes; the last
-   form of the last included file is spliced as the last form of a begin) *)
+   statement of an infix block and the expansion of a macro are the same forms in other clothes; an included
+   file is no tail context: GenerateInclude compiles the files one by one without knowing which is last) *)
 Definition tail_pos (q : pos) : bool :=
   match q with
   | PBodyLast | PBeginLast | PAndLast | POrLast | PCondArm | PCondDefault
-  | PLetBodyLast | PLetseqBodyLast | PScopeLast | PInfixLast | PMacroExpansion | PIncludeLastFile => true
+  | PLetBodyLast | PLetseqBodyLast | PScopeLast | PInfixLast | PMacroExpansion => true
   | _ => false
   end.
 
@@ -248,8 +248,9 @@ Definition table_ok (leaks : list pos) (tbl : list site) (exits : list fexit) (g
   forallb goto_ok gotos && Nat.eqb (length gotos) 1 &&
   entry_ok tbl.
 
-(* positions where the unchanged code hands the flag to a form that is not in tail position (findings) *)
-Definition known_leaks : list pos := [PDefLhs; PSetLhs; PIncludeNonLastFile].
+(* positions where the unchanged code hands the flag to a form that is not in tail position (findings):
+   none now; PDefLhs, PSetLhs (repaired in 0c81737) and PIncludeNonLastFile (9d37ebd) were found with this table *)
+Definition known_leaks : list pos := [].
 
 (* number of `goto 0` instructions the generator emits for a program that consists of nested positions with
    ONE self call at the end: the call itself if the flag arrives, plus the enclosing self calls whose
